@@ -158,6 +158,7 @@ func c18(c *Ctx) {
 	}
 	c18Storage(c)
 	c18Token(c)
+	c18OptionOrder(c)
 }
 
 func c18Getter(c *Ctx, fn *ssa.Function) int {
